@@ -3,7 +3,7 @@
 From Coq Require Import ZArith List.
 From MomoCommon Require Import GenPrelude.
 From C13 Require Gen_Open2N2_m1 Gen_Open2N2_m2 Gen_Open2N2_nf SameCode.
-From C13 Require Gen_Open2N2 Gen_OpenN1 Gen_Open8 Gen_Open2N2_ops Gen_OpenN1_ops Gen_HSAdd Gen_BucketBase Open2N2_Proofs OpenN1_Proofs ProbeSeq OpenTable BucketOps HSAddRefine OpenInstances.
+From C13 Require Gen_Open2N2 Gen_OpenN1 Gen_Open8 Gen_Open2N2_ops Gen_OpenN1_ops Gen_HSAdd Gen_BucketBase Open2N2_Proofs OpenN1_Proofs ProbeSeq OpenTable BucketOps BucketFrame HSAddRefine OpenInstances.
 Import ListNotations.
 Local Open Scope Z_scope.
 
@@ -111,6 +111,44 @@ Theorem C13_openn1_empty_bucket :
     (forall L, 0 <= L -> Gen_OpenN1.GetMaxProbe mc (Gen_OpenN1_ops.pvSetEmpty mc d) L = 0).
 Proof. exact BucketOps.N1.empty_good. Qed.
 Print Assumptions C13_openn1_empty_bucket.
+
+(* Frame conditions of the generated Open2N2 AddCrt / Remove: apart from the count bits in mState[1] they touch exactly
+   the short-hash slot that gains / loses the item (Remove refills the vacated slot from the lowest occupied one), so
+   every stored item keeps the short hash Bucket::Find compares against and the mantissa byte of the bound is untouched. *)
+Theorem C13_open2n2_addcrt_frame :
+  forall mc, 1 <= mc <= 3 -> forall hc lbc pr ni b, BucketOps.O2.good mc b -> 0 <= BucketOps.O2.cnt b < mc ->
+    let b' := BucketOps.O2.addP mc (hc, lbc, pr, ni) b in
+    BucketOps.O2.sh b' (mc - 1 - BucketOps.O2.cnt b) = Gen_Open2N2_ops.pvCalcShortHash (wrapU 64 hc) /\
+    (forall i, i <> mc - 1 - BucketOps.O2.cnt b -> BucketOps.O2.sh b' i = BucketOps.O2.sh b i) /\
+    BucketOps.O2.ms b' 0 = BucketOps.O2.ms b 0 /\
+    (forall i, i <> 1 -> BucketOps.O2.ms b' i = BucketOps.O2.ms b i).
+Proof. exact BucketFrame.O2F.add_frame. Qed.
+Print Assumptions C13_open2n2_addcrt_frame.
+Theorem C13_open2n2_remove_frame :
+  forall mc, 1 <= mc <= 3 -> forall idx x1 x2 x3 b b', BucketOps.O2.good mc b -> 0 < BucketOps.O2.cnt b <= mc ->
+    BucketOps.O2.remP mc (idx, x1, x2, x3) b = Some b' ->
+    mc - BucketOps.O2.cnt b <= idx < mc /\
+    (idx <> mc - BucketOps.O2.cnt b -> BucketOps.O2.sh b' idx = BucketOps.O2.sh b (mc - BucketOps.O2.cnt b)) /\
+    BucketOps.O2.sh b' (mc - BucketOps.O2.cnt b) = 128 /\
+    (forall i, i <> idx -> i <> mc - BucketOps.O2.cnt b -> BucketOps.O2.sh b' i = BucketOps.O2.sh b i) /\
+    BucketOps.O2.ms b' 0 = BucketOps.O2.ms b 0 /\
+    (forall i, i <> 1 -> BucketOps.O2.ms b' i = BucketOps.O2.ms b i).
+Proof. exact BucketFrame.O2F.rem_frame. Qed.
+Print Assumptions C13_open2n2_remove_frame.
+(* ... hence the multiset of stored short hashes (any weight w with w emptyShortHash = 0, summed over the three slots of
+   Open2N2<3>) changes by exactly the added / the removed item's short hash. *)
+Theorem C13_open2n2_addcrt_short_hash_multiset :
+  forall mc, 1 <= mc <= 3 -> forall w hc lbc pr ni b, mc = 3 -> BucketOps.O2.good mc b -> 0 <= BucketOps.O2.cnt b < mc -> w 128 = 0 ->
+    BucketFrame.O2F.wsum w (BucketOps.O2.sh (BucketOps.O2.addP mc (hc, lbc, pr, ni) b)) =
+    BucketFrame.O2F.wsum w (BucketOps.O2.sh b) + w (Gen_Open2N2_ops.pvCalcShortHash (wrapU 64 hc)).
+Proof. exact BucketFrame.O2F.add_wsum. Qed.
+Print Assumptions C13_open2n2_addcrt_short_hash_multiset.
+Theorem C13_open2n2_remove_short_hash_multiset :
+  forall mc, 1 <= mc <= 3 -> forall w idx x1 x2 x3 b b', mc = 3 -> BucketOps.O2.good mc b -> 0 < BucketOps.O2.cnt b <= mc -> w 128 = 0 ->
+    BucketOps.O2.remP mc (idx, x1, x2, x3) b = Some b' ->
+    BucketFrame.O2F.wsum w (BucketOps.O2.sh b') = BucketFrame.O2F.wsum w (BucketOps.O2.sh b) - w (BucketOps.O2.sh b idx).
+Proof. exact BucketFrame.O2F.rem_wsum. Qed.
+Print Assumptions C13_open2n2_remove_short_hash_multiset.
 
 (* Table level ("Hence ..." of the property).  OpenTable.v models HashSet::pvAddNogrow / pvFind / Remove for an
    open-addressing table with 2^n buckets, ANY hash function h, the generated probe step, the generated bound
